@@ -2,7 +2,8 @@
 (* C08, hexagonal part -- symmetry and rotation operations of armi.reactor.grids.hexagonal.HexGrid and
    armi.utils.hexagon agree with the physical geometry.
 
-   Self-contained (integers only; lattice operators are local and prefixed Sym*, HexLattice.tla belongs to C07).
+   Self-contained (integers only; the lattice operators live in SymLattice.tla, prefixed Sym*; HexLattice.tla belongs
+   to C07 and is not used).
 
    TWO LAYERS, TIED TOGETHER BY INVARIANTS
    ---------------------------------------
@@ -59,7 +60,7 @@
        180/240/300 degree lines are "not on a line" (None) -- the code says so in its notes, GeoLine does the same.
      * Full-core grids: the symmetry group is trivial: no equivalents, every cell in the domain.
 *)
-EXTENDS Integers, Sequences, FiniteSets, TLC, Json, FiniteSetsExt, SequencesExt
+EXTENDS SymLattice, TLC, Json
 
 CONSTANTS N,          \* number of hex rings (cells with ring <= N)
           K,          \* rotation steps -K..K
@@ -73,36 +74,7 @@ Orients == {"flat", "corner"}
 KSet    == (-K..K) \cup BigK \cup {-b : b \in BigK}
 
 (* ------------------------------------------- lattice geometry ------------------------------------------- *)
-SymAbs(x)     == IF x < 0 THEN -x ELSE x
-SymMax2(a, b) == IF a >= b THEN a ELSE b
-SymDist(cc)   == SymMax2(SymAbs(cc[1]), SymMax2(SymAbs(cc[2]), SymAbs(cc[1] + cc[2])))   \* cube distance
-SymRing(cc)   == SymDist(cc) + 1
 Cells         == {cc \in (-(N - 1)..(N - 1)) \X (-(N - 1)..(N - 1)) : SymDist(cc) <= N - 1}
-Centre        == <<0, 0>>
-
-SymXY(oo, cc) == IF oo = "flat" THEN <<3 * cc[1], cc[1] + 2 * cc[2]>>
-                                ELSE <<cc[1] - cc[2], 3 * (cc[1] + cc[2])>>
-
-\* 2 cos(60k) and 2 sin(60k)/sqrt(3)
-SymC6(k) == <<2, 1, -1, -2, -1, 1>>[(k % 6) + 1]
-SymS6(k) == <<0, 1, 1, 0, -1, -1>>[(k % 6) + 1]
-ASSUME SymC6(0) = 2 /\ SymS6(0) = 0 /\ SymC6(1) = 1 /\ SymS6(1) = 1                      \* cos 60 = 1/2, sin 60 = r3/2
-ASSUME \A k \in -12..12 : SymC6(k) * SymC6(k) + 3 * SymS6(k) * SymS6(k) = 4               \* cos^2 + sin^2 = 1
-ASSUME \A a, b \in -12..12 : /\ 2 * SymC6(a + b) = SymC6(a) * SymC6(b) - 3 * SymS6(a) * SymS6(b)   \* cos(a+b)
-                             /\ 2 * SymS6(a + b) = SymS6(a) * SymC6(b) + SymC6(a) * SymS6(b)       \* sin(a+b)
-
-\* twice the rotated vector (exact integers), per kind of lattice:  "flat": real = (X, r3 Y); "corner": real = (r3 X, Y)
-SymRot2(oo, k, p) == IF oo = "flat"
-                     THEN <<SymC6(k) * p[1] - 3 * SymS6(k) * p[2], SymS6(k) * p[1] + SymC6(k) * p[2]>>
-                     ELSE <<SymC6(k) * p[1] - SymS6(k) * p[2], 3 * SymS6(k) * p[1] + SymC6(k) * p[2]>>
-SymRotVec(oo, k, p) == LET q == SymRot2(oo, k, p) IN <<q[1] \div 2, q[2] \div 2>>
-\* sign of the cross product / dot product of two real vectors given as lattice pairs of the same kind
-SymCross(p, q)     == p[1] * q[2] - p[2] * q[1]
-SymDot(oo, p, q)   == IF oo = "flat" THEN p[1] * q[1] + 3 * p[2] * q[2] ELSE 3 * p[1] * q[1] + p[2] * q[2]
-
-\* the cell whose centre is the lattice point p (inverse of SymXY; GeoRotExact checks SymXY(SymCellAt(p)) = p wherever used)
-SymCellAt(oo, p)   == IF oo = "flat" THEN <<p[1] \div 3, (p[2] - (p[1] \div 3)) \div 2>>
-                                     ELSE <<(p[1] + (p[2] \div 3)) \div 2, ((p[2] \div 3) - p[1]) \div 2>>
 GeoRot(oo, k, cc)  == SymCellAt(oo, SymRotVec(oo, k, SymXY(oo, cc)))
 GeoImages3(oo, cc) == {GeoRot(oo, 2, cc), GeoRot(oo, 4, cc)} \ {cc}
 GeoOrbit3(oo, cc)  == GeoImages3(oo, cc) \cup {cc}
@@ -126,16 +98,6 @@ GeoLine(oo, cc) == IF cc = Centre THEN 4
 AlgEquivThird(cc) == IF cc = Centre THEN <<>>
                      ELSE << <<-cc[1] - cc[2], cc[1]>>, <<cc[2], -cc[1] - cc[2]>> >>
 
-RP(edge, ring, offset) == <<ring, 1 + edge * (ring - 1) + offset>>
-AlgRingPos(cc) == LET i == cc[1]  j == cc[2] IN
-    IF i > 0 /\ j >= 0       THEN RP(0, i + j + 1, j)
-    ELSE IF i <= 0 /\ j > -i THEN RP(1, j + 1, -i)
-    ELSE IF i < 0 /\ j > 0   THEN RP(2, -i + 1, -j - i)
-    ELSE IF i < 0            THEN RP(3, -i - j + 1, -j)
-    ELSE IF i >= 0 /\ j < -i THEN RP(4, -j + 1, i)
-    ELSE                          RP(5, i + 1, i + j)
-PositionsInRing(r) == IF r = 1 THEN 1 ELSE 6 * (r - 1)
-
 AlgFirstThird(cc, top) ==
     LET ring == AlgRingPos(cc)[1]
         pos  == AlgRingPos(cc)[2]
@@ -152,15 +114,6 @@ AlgLine(cc) == LET i == cc[1]  j == cc[2] IN
     ELSE IF j = -2 * i /\ j > 0 THEN 3
     ELSE 0
 
-\* deque((i, j, -(i+j))).rotate(-k): new[m] = old[(m + k) mod 3]; the first two entries, negated when k is odd
-AlgRot(k, cc) == LET buf == <<cc[1], cc[2], -(cc[1] + cc[2])>>
-                     a   == buf[(k % 3) + 1]
-                     b   == buf[((k + 1) % 3) + 1]
-                 IN  IF k % 2 = 1 THEN <<-a, -b>> ELSE <<a, b>>
-
-\* cell numbers: 1 = centre, then ring by ring in position order (HexBlock.autoCreateSpatialGrids numbers pins so)
-TotalUpToRing(r) == 1 + 3 * r * (r - 1)
-CellNum(cc)      == LET rp == AlgRingPos(cc) IN IF rp[1] = 1 THEN 1 ELSE TotalUpToRing(rp[1] - 1) + rp[2]
 RingsToHold(n)   == CHOOSE r \in 1..(N + 1) : TotalUpToRing(r) >= n /\ (r = 1 \/ TotalUpToRing(r - 1) < n)
 AlgRotNum(n, k)  == IF n = 1 \/ k = 0 THEN n
                     ELSE LET ring == RingsToHold(n)
